@@ -10,13 +10,27 @@ pub struct Options { pub derive_debug: bool, pub derive_default: bool, pub deriv
 pub struct BindgenContext {
     pub options: Options,
     pub cannot_derive_debug: Option<Set>, pub cannot_derive_default: Option<Set>, pub cannot_derive_copy: Option<Set>, pub cannot_derive_hash: Option<Set>,
-    pub cannot_derive_partialeq_or_partialord: Option<Map>, pub has_float: Option<Set>, pub tparam_in_array: bool,
+    pub cannot_derive_partialeq_or_partialord: Option<Map>, pub has_float: Option<Set>, pub has_type_param_in_array: Option<Set>,
 }
 impl BindgenContext {
     pub fn options(&self) -> &Options { &self.options }
     pub fn in_codegen_phase(&self) -> bool { true }
-    pub fn lookup_has_type_param_in_array<Id: Into<ItemId>>(&self, _: Id) -> bool { self.tparam_in_array }
+    pub fn timer(&self, _: &str) {}
     /*LOOKUPS*/
+}
+
+// ---- the analyses themselves are not run here: `analyze` hands back an arbitrary result of the right type ----
+pub struct CannotDerive; pub struct HasTypeParameterInArray; pub struct HasFloat;
+pub trait Ana { type Out; type In<'a>; fn out() -> Self::Out; }
+#[derive(Clone, Copy)] pub enum DeriveTrait { Copy, Debug, Default, Hash, PartialEqOrPartialOrd }
+fn nd_bool() -> bool { #[cfg(kani)] { kani::any() } #[cfg(not(kani))] { false } }
+impl Ana for CannotDerive { type Out = Map; type In<'a> = (&'a mut BindgenContext, DeriveTrait); fn out() -> Map { Map { v: if nd_bool() { Some(CanDerive::No) } else { None } } } }
+impl Ana for HasTypeParameterInArray { type Out = Set; type In<'a> = &'a mut BindgenContext; fn out() -> Set { Set { has: nd_bool() } } }
+impl Ana for HasFloat { type Out = Set; type In<'a> = &'a mut BindgenContext; fn out() -> Set { Set { has: nd_bool() } } }
+pub fn analyze<'a, A: Ana>(_: A::In<'a>) -> A::Out { A::out() }
+pub fn as_cannot_derive_set(m: Map) -> Set { Set { has: m.v.is_some() } }
+impl BindgenContext {
+/*COMPUTES*/
 }
 pub mod derive_traits { use super::*; /*IR_DERIVE*/ }
 pub use derive_traits::*;
@@ -34,7 +48,7 @@ impl core::ops::BitOrAssign for DerivableTraits { fn bitor_assign(&mut self, o: 
 pub struct Annotations { pub no_copy: bool, pub no_debug: bool, pub no_default: bool }
 impl Annotations { pub fn disallow_copy(&self) -> bool { self.no_copy } pub fn disallow_debug(&self) -> bool { self.no_debug } pub fn disallow_default(&self) -> bool { self.no_default } }
 pub struct Item { pub id: ItemId, pub ann: Annotations }
-impl Item { pub fn annotations(&self) -> &Annotations { &self.ann } }
+impl Item { pub fn annotations(&self) -> &Annotations { &self.ann } pub fn id(&self) -> ItemId { self.id } }
 macro_rules! fwd { ($($tr:ident $f:ident),*) => { $(impl $tr for Item { fn $f(&self, ctx: &BindgenContext) -> bool { self.id.$f(ctx) } })* } }
 fwd!(CanDeriveDebug can_derive_debug, CanDeriveDefault can_derive_default, CanDeriveCopy can_derive_copy, CanDeriveHash can_derive_hash, CanDerivePartialOrd can_derive_partialord,
      CanDerivePartialEq can_derive_partialeq, CanDeriveEq can_derive_eq, CanDeriveOrd can_derive_ord);
@@ -55,7 +69,7 @@ mod proofs {
     fn any_ctx() -> BindgenContext {
         BindgenContext { options: Options { derive_debug: kani::any(), derive_default: kani::any(), derive_copy: kani::any(), derive_hash: kani::any(), derive_partialord: kani::any(), derive_partialeq: kani::any(), derive_eq: kani::any(), derive_ord: kani::any() },
             cannot_derive_debug: Some(Set { has: kani::any() }), cannot_derive_default: Some(Set { has: kani::any() }), cannot_derive_copy: Some(Set { has: kani::any() }), cannot_derive_hash: Some(Set { has: kani::any() }),
-            cannot_derive_partialeq_or_partialord: Some(Map { v: any_cd() }), has_float: Some(Set { has: kani::any() }), tparam_in_array: kani::any() }
+            cannot_derive_partialeq_or_partialord: Some(Map { v: any_cd() }), has_float: Some(Set { has: kani::any() }), has_type_param_in_array: Some(Set { has: kani::any() }) }
     }
     #[kani::proof]
     fn option_gates_and_float_exclusion() {
@@ -65,7 +79,7 @@ mod proofs {
         // a trait is offered exactly when its option is on and the analysis allows it; Eq / Ord additionally need: no float anywhere inside
         assert!(id.can_derive_debug(&ctx) == (ctx.options.derive_debug && !ctx.cannot_derive_debug.as_ref().unwrap().has));
         assert!(id.can_derive_default(&ctx) == (ctx.options.derive_default && !ctx.cannot_derive_default.as_ref().unwrap().has));
-        assert!(id.can_derive_copy(&ctx) == (ctx.options.derive_copy && !ctx.cannot_derive_copy.as_ref().unwrap().has && !ctx.tparam_in_array), "Copy offered for a type with a type parameter in an array, or against the option / analysis");
+        assert!(id.can_derive_copy(&ctx) == (ctx.options.derive_copy && !ctx.cannot_derive_copy.as_ref().unwrap().has && !ctx.has_type_param_in_array.as_ref().unwrap().has), "Copy offered for a type with a type parameter in an array, or against the option / analysis");
         assert!(id.can_derive_hash(&ctx) == (ctx.options.derive_hash && !ctx.cannot_derive_hash.as_ref().unwrap().has));
         assert!(id.can_derive_partialeq(&ctx) == (ctx.options.derive_partialeq && peq_yes));
         assert!(id.can_derive_partialord(&ctx) == (ctx.options.derive_partialord && peq_yes));
@@ -94,6 +108,22 @@ mod proofs {
         assert!(!d.contains(DerivableTraits::EQ) || d.contains(DerivableTraits::PARTIAL_EQ), "derive(Eq) without PartialEq");
         assert!(!d.contains(DerivableTraits::COPY) || d.contains(DerivableTraits::CLONE), "derive(Copy) without Clone");
         kani::cover!(d.contains(DerivableTraits::ORD), "Ord derived");
+    }
+    /// whatever the (closed) options are: after the compute phase every lookup a consumer can reach finds its analysis - no `unwrap()` on a skipped one
+    #[kani::proof]
+    fn every_analysis_a_consumer_can_ask_for_has_been_computed() {
+        let o = any_ctx().options; kani::assume(options_closed(&o));
+        let mut ctx = BindgenContext { options: o, cannot_derive_debug: None, cannot_derive_default: None, cannot_derive_copy: None, cannot_derive_hash: None, cannot_derive_partialeq_or_partialord: None, has_float: None, has_type_param_in_array: None };
+        // BindgenContext::gen runs these before code generation
+        ctx.compute_cannot_derive_debug(); ctx.compute_cannot_derive_default(); ctx.compute_cannot_derive_copy(); ctx.compute_has_type_param_in_array(); ctx.compute_has_float(); ctx.compute_cannot_derive_hash(); ctx.compute_cannot_derive_partialord_partialeq_or_eq();
+        let id = ItemId(1);
+        // consumers: the eight option gates (derives_of_item), the hand-written Debug impl (array members ask has_type_param_in_array whenever a manual impl is written:
+        // derive_debug and impl_debug), the hand-written PartialEq decision (derive_partialeq and impl_partialeq)
+        let _ = (id.can_derive_debug(&ctx), id.can_derive_default(&ctx), id.can_derive_copy(&ctx), id.can_derive_hash(&ctx), id.can_derive_partialord(&ctx), id.can_derive_partialeq(&ctx), id.can_derive_eq(&ctx), id.can_derive_ord(&ctx));
+        let impl_debug: bool = kani::any(); let impl_partialeq: bool = kani::any();
+        if ctx.options.derive_debug && impl_debug { let _ = ctx.lookup_has_type_param_in_array(id); }
+        if ctx.options.derive_partialeq && impl_partialeq { let _ = ctx.lookup_can_derive_partialeq_or_partialord(id); }
+        kani::cover!(!ctx.options.derive_copy && ctx.options.derive_debug && impl_debug, "manual Debug impl without derive(Copy)");
     }
     #[kani::proof]
     fn derive_set_assembly() {
